@@ -14,8 +14,8 @@ TASK_NAMES = ['a', 'xa', 'b', 'train_x', 'n', 'xn', 'c', 'd', 'ax', 'e', 'g', 'm
 PATTERN_NAMES = ['p_a', 'p_b', 'p_xa']
 GROUPS = [None, None, 'g', 'xg', 'g:h']
 MODULE_NAMES = ['alpha', 'beta', 'gamma', 'delta']
-REL_NS = ['', '', '', 'm', 'train', 'n', 'xn', 'm::k']
-MOUNT_NS = ['n', 'xn', 'm', 'train', 'n2', 'a']
+REL_NS = ['', '', '', 'm', 'train', 'n', 'xn', 'm::k', 'g']   # ('g' is also a task GROUP name)
+MOUNT_NS = ['n', 'xn', 'm', 'train', 'n2', 'a', 'g', 'xg']
 KINDS_BASIC = ['dict', 'dict', 'list', 'str', 'int']
 KINDS_ALL = ['dict', 'list', 'str', 'int', 'numpy', 'frame', 'generator', 'lazy', 'list_numpy', 'dir', 'memory',
              'gen_empty']
